@@ -250,6 +250,70 @@ theorem empty_cluster_contacts_nobody (outcome : Nat → α → Outcome) (enum2 
     (locations outcome [] enum2).contacted = [] ∧ (clusterDo outcome [] enum2).contacted = [] := by
   simp [locations, locationsWith, clusterDo, clusterDoWith, sample]
 
+/-! ### origin/blobclient.clusterClient requests (lookup on ≤ 3 cluster hosts, then the replicas) -/
+
+theorem visitAll_contacted (outcome : Nat → α → Outcome) :
+    ∀ (l : List α) (i : Nat) (r : Run α), (visitAll outcome i l r).contacted = r.contacted ++ l := by
+  intro l
+  induction l with
+  | nil => intro i r; simp [visitAll]
+  | cons a t ih => intro i r; simp [visitAll, ih]
+
+/-- the replica phase only talks to replicas the lookup named, each at most once, in visiting order -/
+theorem replicaPhase_sublist (w : Walk) (outcome : Nat → α → Outcome) (order : List α) :
+    ∃ k, (replicaPhase w outcome order).contacted = order.take k := by
+  cases w with
+  | untilOk =>
+    obtain ⟨k, _, hc, _, _⟩ := tryUntilOk_prefix outcome order 0 {}
+    exact ⟨k, by simpa [replicaPhase] using hc⟩
+  | all => exact ⟨order.length, by simp [replicaPhase, visitAll_contacted]⟩
+  | one =>
+    cases order with
+    | nil => exact ⟨0, by simp [replicaPhase]⟩
+    | cons a t => exact ⟨1, by simp [replicaPhase]⟩
+
+/-- **C25 (5, partial)** a blobclient.clusterClient request: the lookup phase obeys the bound of three
+distinct current cluster hosts; the replica phase contacts only replicas named by the lookup, each at
+most once, and only after a successful lookup.  (The total is therefore ≤ min(3,size) + #replicas.) -/
+theorem cluster_request_partial (w : Walk) (lo ro : Nat → α → Outcome) (hosts enum1 : List α)
+    (enum2 : List α → List α) (replicas : List α) (order : List α → List α)
+    (hn : hosts.Nodup) (hp1 : enum1.Perm hosts) (hp2 : ∀ l, (enum2 l).Perm l)
+    (hrn : replicas.Nodup) (hpo : (order replicas).Perm replicas) :
+    let r := clusterRequest w lo ro enum1 enum2 replicas order
+    Bounded hosts 3 r.1 ∧ r.2.contacted.Nodup ∧ (∀ a ∈ r.2.contacted, a ∈ replicas) ∧
+    (r.1.contacted ++ r.2.contacted).length ≤ min 3 hosts.length + replicas.length ∧
+    (r.2.contacted ≠ [] → r.1.result = some .ok) := by
+  have hb := (locations_bounded lo hosts enum1 enum2 hn hp1 hp2).1
+  unfold clusterRequest
+  simp only []
+  split
+  · rename_i hok
+    obtain ⟨k, hk⟩ := replicaPhase_sublist w ro (order replicas)
+    refine ⟨hb, ?_, ?_, ?_, fun _ => hok⟩
+    · rw [hk]; exact (List.take_sublist _ _).nodup (hpo.nodup_iff.mpr hrn)
+    · intro a ha; rw [hk] at ha; exact hpo.mem_iff.mp (List.mem_of_mem_take ha)
+    · show ((locations lo enum1 enum2).contacted ++ (replicaPhase w ro (order replicas)).contacted).length ≤ _
+      rw [List.length_append, hk, List.length_take, hpo.length_eq]
+      have := hb.atMost
+      omega
+  · refine ⟨hb, by simp, by simp, ?_, by simp⟩
+    show ((locations lo enum1 enum2).contacted ++ ([] : List α)).length ≤ _
+    have := hb.atMost
+    simp; omega
+
+/-- The property's literal bound for such a request: at most three distinct hosts in total, all from
+the client's host list.  REFUTED: the replicas are further hosts (known finding
+`blobclient-request-visits-replicas`). -/
+def cluster_request_target : Prop :=
+  ∀ (w : Walk) (lo ro : Nat → Nat → Outcome) (hosts replicas : List Nat), hosts.Nodup → replicas.Nodup →
+    let r := clusterRequest w lo ro hosts id replicas id
+    (r.1.contacted ++ r.2.contacted).eraseDups.length ≤ 3 ∧ ∀ a ∈ r.2.contacted, a ∈ hosts
+
+theorem not_cluster_request_target : ¬ cluster_request_target := by
+  intro h
+  have := h .all (fun _ _ => .ok) (fun _ _ => .ok) [1, 2, 3] [4, 5, 6] (by decide) (by decide)
+  exact absurd this.1 (by decide)
+
 /-! ### regression witness: the behaviour before the fix (Sample returned the receiver) -/
 
 /-- with `return s` a request against four failing hosts visits all four — the bound of three fails;
